@@ -651,7 +651,8 @@ def check_ctor(case):
     # float MJD: the resolution of a double at MJD 5e4 is 0.63 us
     mjd = day + sec / 86400.0
     x = Date(mjd, scale=S)
-    if abs(td_us(x - ref)) > 1:
+    # (a UT1 reading within 1 s of 0h UTC is ambiguous by the day change of UT1-UTC: same allowance)
+    if abs(td_us(x - ref)) > 1 + ut1_slack(us, (S,)):
         raise Violation("ctor-mjd", f"Date({mjd!r}, {S}) = {x}, {td_us(x - ref)} us from {ref}")
     if abs(ref.mjd - mjd) > 1.5e-11 or abs(ref.jd - (mjd + 2400000.5)) > 1e-9:
         raise Violation("mjd-property", f"{ref}.mjd = {ref.mjd!r}, expected {mjd!r}")
